@@ -498,7 +498,7 @@ func TestC05Stress(t *testing.T) {
 	st := vlib.StatsFor("C05", "stress", "8-32 goroutines x 20 requests each on one log (growth from what they last read, forks from the same size, refreshes, reads) without the scheduler, both stores, built with -race: all accepted checkpoints form one prefix chain, the final state is the largest accepted one, no goroutine sees the size go down, every value read was accepted; non-trivial = run in which >=2 goroutines had an update accepted")
 	rounds := 6
 	if vlib.Thorough() {
-		rounds = 60
+		rounds = 200
 	}
 	for round := 0; round < rounds; round++ {
 		for _, storage := range []string{"mem", "sql"} {
